@@ -608,8 +608,10 @@ def emit_fn(card, repo, out, info, twin=False, assumed_here=False):
         out.add('#[verifier::spinoff_prover]', {'fn': fid, 'part': 'attr'})
     if 'nodecreases' in card.opts or DEGRADED_IDS.get(fid):
         out.add('#[verifier::exec_allows_no_decreases_clause]', {'fn': fid, 'part': 'attr'})
-    if card.opts.get('rlimit') and not twin:
-        out.add('#[verifier::rlimit(%s)]' % card.opts['rlimit'], {'fn': fid, 'part': 'attr'})
+    if not twin:
+        # a generous default: a proof that no longer goes through should end as a named failed obligation, not in the
+        # solver's resource limit (which is reported as undecided)
+        out.add('#[verifier::rlimit(%s)]' % card.opts.get('rlimit', '40'), {'fn': fid, 'part': 'attr'})
     out.add(sig, {'fn': fid, 'part': 'sig'})
     if card.requires:
         out.add('    requires', {'fn': fid, 'part': 'sig'})
